@@ -1,4 +1,4 @@
-package sim
+package scen
 
 import (
 	"math/rand/v2"
